@@ -415,7 +415,7 @@ def gen_cases(ctx, rng, scale):
         s_ = rng.choice([0, 0, -30, 30]) if j % 3 else rng.choice(SC)
         c = {"kind": "PD", "X": [[fl(x) for x in p] for p in scaled(pts, s_)], "perp": fl(perp), "scale": s_, "dyadic": True}
         if abs(s_) <= 30:
-            c["model_rows"] = sorted({0, N // 2, N - 1})
+            c["model_rows"] = sorted({j % N, N - 1})      # 0.15 .. 0.5 s per row through the extracted search
         add(c, "PD/dyadic" + ("" if s_ == 0 else "-scaled"))
     for j in range(3 * scale):
         kind = rng.choice(["lattice", "dyadic", "line1"])
@@ -426,7 +426,7 @@ def gen_cases(ctx, rng, scale):
         perp = rng.choice([pmax, 2.0, 1.0 + rng.random() * (pmax - 1.0)])
         s_ = rng.choice([0, 0, -30, 30])
         add({"kind": "PK", "X": qs(scaled(pts, s_)), "perp": fl(perp), "K": int(3 * perp), "scale": s_,
-             "model_rows": sorted({0, N // 2, N - 1})}, "PK/small-model")
+             "model_rows": [(5 * j + 1) % N]}, "PK/small-model")
     # GM: computeGradient against the EXTRACTED model (Tsne_BH_Model.bh_gradient on c18's tsne_tree) on small
     # dyadic maps, theta in {0, 1/8, 1/2, 1}
     for j in range(4 * scale):
